@@ -14,6 +14,11 @@ package webrtc
 // present or absent, default / remapped / unsupported codecs, 1..6 sections, all mid styles), applied to answerers
 // with 0..3 pre-added local transceivers and random MediaEngines (all codecs, audio-only, video-only, random subset);
 // a third of the cases continue with a second, extended offer (renegotiation) when the first round was clean.
+// The shared generator keeps at most one application section per offer; the quantifier says "any mix", so a share
+// of the cases lifts that restriction (c07RepeatApplication): 2..4 application sections with distinct mids, obtained
+// by converting media sections in place and/or inserting new sections at random positions, each with its own
+// transport protocol token / sctp-port / max-message-size / port. With a two-round case the repeated section may
+// only appear in the renegotiation. A share of the answerers also holds a locally created data channel.
 
 import (
 	"fmt"
@@ -95,6 +100,121 @@ type c07Case struct {
 	Engine       []c07Codec
 	Locals       []c07Local
 	DisableMulti bool
+	LocalDC      bool   // the answerer created a data channel before the offer arrived
+	AppClass     string // "" or how application sections were repeated (convert/insert counts), label only
+}
+
+// c07AppSection returns a data-channel section with randomised (legal) parameters.
+func c07AppSection(r *kit.Rand, mid string, port int) *genMedia {
+	m := &genMedia{Kind: "application", Mid: mid, Port: port, Setup: "actpass", RTCPMux: true}
+	m.Proto = kit.Pick(r, []string{"UDP/DTLS/SCTP", "UDP/DTLS/SCTP", "UDP/DTLS/SCTP", "TCP/DTLS/SCTP", "DTLS/SCTP"})
+	m.SCTPPort = kit.Pick(r, []int{5000, 5000, 5000, 5001, 9, 65535})
+	if r.Chance(0.5) {
+		m.Extra = append(m.Extra, fmt.Sprintf("a=max-message-size:%d", kit.Pick(r, []int{0, 1200, 65536, 262144, 1073741823})))
+	}
+
+	return m
+}
+
+// c07RepeatApplication lifts the shared generator's "at most one application section" restriction: afterwards the
+// offer has 2..4 application sections (distinct mids). Every additional section is either an existing non-application
+// section converted in place (mid and port kept) or a new section inserted at a random position (fresh mid).
+func c07RepeatApplication(r *kit.Rand, g *genSDP, maxSections int, rejectedOK bool) string {
+	have := 0
+	used := map[string]bool{}
+	for _, m := range g.Media {
+		used[m.Mid] = true
+		if m.Kind == "application" {
+			have++
+		}
+	}
+	want := have + kit.Pick(r, []int{1, 1, 1, 2, 2, 3})
+	if want < 2 {
+		want = 2
+	}
+	if want > 4 {
+		want = 4
+	}
+	freshMid := func() string {
+		names := []string{"data2", "app2", "dc", "sctp1", "d", "9", "17", "40", "appdata", "x-2"}
+		for {
+			mid := kit.Pick(r, names)
+			if r.Chance(0.4) {
+				mid = fmt.Sprint(len(g.Media) + r.Intn(30))
+			}
+			if !used[mid] {
+				used[mid] = true
+
+				return mid
+			}
+		}
+	}
+	conv, ins := 0, 0
+	for ; have < want; have++ {
+		var candidates []int
+		for i, m := range g.Media {
+			if m.Kind != "application" {
+				candidates = append(candidates, i)
+			}
+		}
+		// keep at least one non-application section when there is one: the shift of later sections is part of the class
+		if len(candidates) >= 2 && (len(g.Media) >= maxSections || r.Chance(0.35)) {
+			i := kit.Pick(r, candidates)
+			old := g.Media[i]
+			m := c07AppSection(r, old.Mid, old.Port)
+			m.ICEAtMedia, m.FPAtMedia = old.ICEAtMedia, old.FPAtMedia
+			g.Media[i] = m
+			conv++
+
+			continue
+		}
+		if len(g.Media) >= maxSections {
+			break
+		}
+		port := 9
+		if rejectedOK && r.Chance(0.1) {
+			port = 0
+		}
+		m := c07AppSection(r, freshMid(), port)
+		at := r.Intn(len(g.Media) + 1)
+		g.Media = append(g.Media, nil)
+		copy(g.Media[at+1:], g.Media[at:])
+		g.Media[at] = m
+		ins++
+	}
+
+	return fmt.Sprintf("convert%d+insert%d", conv, ins)
+}
+
+// c07AppLayout classifies where the application sections of an offer sit relative to each other and to the rest.
+func c07AppLayout(g *genSDP) (napp int, layout string) {
+	first, last := -1, -1
+	for i, m := range g.Media {
+		if m.Kind == "application" {
+			napp++
+			if first < 0 {
+				first = i
+			}
+			last = i
+		}
+	}
+	if napp < 2 {
+		return napp, ""
+	}
+	var parts []string
+	if last-first+1 == napp {
+		parts = append(parts, "adjacent")
+	} else {
+		parts = append(parts, "separated")
+	}
+	if first > 0 {
+		parts = append(parts, "media-before")
+	}
+	if last < len(g.Media)-1 {
+		parts = append(parts, "media-after")
+	}
+
+	return napp, strings.Join(parts, "+")
 }
 
 func c07Gen(r *kit.Rand) *c07Case {
@@ -105,6 +225,9 @@ func c07Gen(r *kit.Rand) *c07Case {
 		NoBundle: r.Chance(0.3), MediaLevelSec: r.Chance(0.2),
 	}
 	c.Offer = genRandomOffer(r, o)
+	if r.Chance(0.3) {
+		c.AppClass = c07RepeatApplication(r, c.Offer, 8, o.RejectedOK)
+	}
 	n := len(c.Offer.Media)
 	c.FirstN = n
 	if n >= 2 && r.Chance(0.33) {
@@ -151,6 +274,7 @@ func c07Gen(r *kit.Rand) *c07Case {
 		})
 	}
 	c.DisableMulti = r.Chance(0.25)
+	c.LocalDC = r.Chance(0.2)
 
 	return c
 }
@@ -182,7 +306,7 @@ func c07Hand(media ...*genMedia) *genSDP {
 	}
 }
 
-const c07NumDirected = 10
+const c07NumDirected = 14
 
 // c07Directed returns the hand-written case i (< c07NumDirected): the smallest offers of every input class of the quantifier.
 func c07Directed(i int) *c07Case {
@@ -208,6 +332,17 @@ func c07Directed(i int) *c07Case {
 		c.Offer = c07Hand(c07M("video", "0", ""), c07M("application", "1", ""))
 	case 7:
 		c.Offer = c07Hand(c07M("application", "0", ""), c07M("text", "1", "inactive"))
+	case 10: // the smallest offers with a repeated application section
+		c.Offer = c07Hand(c07M("application", "0", ""), c07M("application", "1", ""))
+	case 11:
+		c.Offer = c07Hand(c07M("audio", "0", "sendrecv"), c07M("application", "1", ""), c07M("application", "2", ""))
+		c.LocalDC = true
+	case 12:
+		c.Offer = c07Hand(c07M("application", "d1", ""), c07M("video", "v", "sendonly"), c07M("application", "d2", ""),
+			c07M("audio", "a", "recvonly"), c07M("application", "d3", ""))
+	case 13: // the repeated section only appears in the renegotiation
+		c.Offer = c07Hand(c07M("application", "0", ""), c07M("audio", "1", "sendrecv"), c07M("application", "2", ""), c07M("video", "3", "sendrecv"))
+		c.Rounds, c.FirstN, c.Round2Dirs = 2, 2, []string{"keep", "keep", "keep", "keep"}
 	case 8: // a local transceiver exists for the kind whose offered section has no direction attribute
 		c.Offer = c07Hand(c07M("audio", "a", "recvonly"), c07M("video", "b", ""))
 		c.Locals = []c07Local{{"video", "sendrecv", "kind"}}
@@ -288,6 +423,10 @@ func c07Describe(g *genSDP) string {
 		dir := m.Dir
 		if dir == "" {
 			dir = "absent"
+		}
+		if m.Kind == "application" {
+			cs = append(cs, m.Proto, fmt.Sprint(m.SCTPPort))
+			cs = append(cs, m.Extra...)
 		}
 		parts = append(parts, fmt.Sprintf("%s/mid=%s/port=%d/%s[%s]", m.Kind, m.Mid, m.Port, dir, strings.Join(cs, ",")))
 	}
@@ -422,6 +561,18 @@ func c07Check(offerText, answerText string) (fs []c07Finding, outcome []string, 
 
 		return d[0]
 	}
+	// kindOf labels an offer section; the second and later application sections of one offer are their own input class
+	appSeen := 0
+	kindLabel := make([]string, len(off.Media))
+	for i, o := range off.Media {
+		kindLabel[i] = strings.ToLower(o.Kind)
+		if kindLabel[i] == "application" {
+			appSeen++
+			if appSeen > 1 {
+				kindLabel[i] = "application(repeated)"
+			}
+		}
+	}
 	pair := func(i, j int) {
 		o, a := off.Media[i], ans.Media[j]
 		om, _ := o.Mid()
@@ -430,7 +581,7 @@ func c07Check(offerText, answerText string) (fs []c07Finding, outcome []string, 
 		if a.Rejected() {
 			state = "rejected"
 		}
-		outcome = append(outcome, fmt.Sprintf("%s:%s->%s", strings.ToLower(o.Kind), dirOf(o), state))
+		outcome = append(outcome, fmt.Sprintf("%s:%s->%s", kindLabel[i], dirOf(o), state))
 		if !strings.EqualFold(o.Kind, a.Kind) {
 			fs = append(fs, c07Finding{"answer-kind-mismatch", fmt.Sprintf("section %d: offer m=%s (mid %q) answered by m=%s", i, o.Kind, om, a.Kind)})
 		}
@@ -458,11 +609,15 @@ func c07Check(offerText, answerText string) (fs []c07Finding, outcome []string, 
 		o := off.Media[i]
 		om, _ := o.Mid()
 		kind := strings.ToLower(o.Kind)
-		outcome = append(outcome, fmt.Sprintf("%s:%s->dropped", kind, dirOf(o)))
+		outcome = append(outcome, fmt.Sprintf("%s:%s->dropped", kindLabel[i], dirOf(o)))
 		var sig string
 		switch {
 		case !c07KnownKind(kind):
 			sig = "answer-drops-section:unknown-kind"
+		case kind == "application" && kindLabel[i] != kind:
+			sig = "answer-drops-section:application:repeated"
+		case kind == "application":
+			sig = "answer-drops-section:application:first"
 		case dirOf(o) == "absent" && kind != "application":
 			sig = "answer-drops-section:absent-direction"
 		default:
@@ -523,14 +678,22 @@ func c07NewAnswerer(c *c07Case) (*PeerConnection, error) {
 		// an engine without codecs of that kind refuses sending transceivers: that local simply does not exist then
 		_, _ = pc.AddTransceiverFromKind(kind, RTPTransceiverInit{Direction: dir})
 	}
+	if c.LocalDC {
+		if _, err = pc.CreateDataChannel("c07dc", nil); err != nil {
+			rigClose(pc)
+
+			return nil, fmt.Errorf("CreateDataChannel: %w", err)
+		}
+	}
 
 	return pc, nil
 }
 
 func TestVerifC07(t *testing.T) {
 	run := kit.Start(t, "C07", "seeded foreign offers (kinds audio/video/application/text/message, direction present or absent, "+
-		"default/remapped/unsupported codecs, offered port-0 sections, 1..6 sections, all mid styles, BUNDLE present/absent; the first 10 cases are hand-written minimal offers) applied to answerers with 0..3 pre-added "+
-		"transceivers and MediaEngines all/audio-only/video-only/random-subset; 1/3 of the cases add a second extended offer. "+
+		"default/remapped/unsupported codecs, offered port-0 sections, 1..8 sections, all mid styles, BUNDLE present/absent; 30% of the offers repeat the application "+
+		"section (2..4 of them, converted in place or inserted at random positions, random proto/sctp-port/max-message-size); the first 14 cases are hand-written minimal offers) applied to answerers with 0..3 pre-added "+
+		"transceivers, with/without a local data channel, and MediaEngines all/audio-only/video-only/random-subset; 1/3 of the cases add a second extended offer. "+
 		"A case counts when CreateAnswer succeeded at least once; it is non-trivial when the applied offer has >= 2 sections of which "+
 		">= 1 is not a plain sendrecv audio/video section with a common codec; distinct by offer structure + engine + locals")
 	defer run.Finish()
@@ -554,6 +717,7 @@ func TestVerifC07(t *testing.T) {
 		defer rigClose(pc)
 		run.Seen("engine", c.EngineClass)
 		run.Seen("locals", fmt.Sprint(len(c.Locals)))
+		run.Seen("local_datachannel", fmt.Sprint(c.LocalDC))
 		answered := 0
 		for round := 1; round <= c.Rounds; round++ {
 			g := c.offerFor(round)
@@ -571,16 +735,36 @@ func TestVerifC07(t *testing.T) {
 			}
 			answered++
 			run.Count(fmt.Sprintf("answers_checked_round%d", round), 1)
-			nonPlain := 0
+			nonPlain, appSeen := 0, 0
 			for _, m := range g.Media {
 				cl := c.sectionClass(m)
+				if m.Kind == "application" {
+					if appSeen++; appSeen > 1 {
+						cl = strings.Replace(cl, "application:", "application(repeated):", 1)
+					}
+					if m.Proto != "UDP/DTLS/SCTP" || m.SCTPPort != 5000 || len(m.Extra) > 0 {
+						run.Count("application_sections_nondefault_params", 1)
+					}
+				}
 				run.Seen("offer_section_class", cl)
 				if cl != "audio:sendrecv:common" && cl != "video:sendrecv:common" {
 					nonPlain++
 				}
 			}
 			run.Seen("offer_sections", fmt.Sprint(len(g.Media)))
-			desc := fmt.Sprintf("r%d|%s|eng=%s%v|multi=%v|loc=%v", round, c07Describe(g), c.EngineClass, len(c.Engine), !c.DisableMulti, c.Locals)
+			napp, layout := c07AppLayout(g)
+			run.Seen("application_sections_per_offer", fmt.Sprint(napp))
+			if napp >= 2 {
+				run.Count("answers_checked_repeated_application", 1)
+				run.Seen("repeated_application_layout", layout)
+				if nfirst, _ := c07AppLayout(c.offerFor(1)); round == 2 && nfirst < 2 {
+					run.Count("repeated_application_first_in_renegotiation", 1)
+				}
+				if c.AppClass != "" {
+					run.Seen("repeated_application_how", c.AppClass)
+				}
+			}
+			desc := fmt.Sprintf("r%d|%s|eng=%s%v|multi=%v|loc=%v|dc=%v", round, c07Describe(g), c.EngineClass, len(c.Engine), !c.DisableMulti, c.Locals, c.LocalDC)
 			run.Case(desc, len(g.Media) >= 2 && nonPlain >= 1)
 
 			fs, outcome, perr := c07Check(offerText, answer.SDP)
@@ -594,7 +778,7 @@ func TestVerifC07(t *testing.T) {
 			}
 			if ansParsed, e2 := kit.ParseSDP(answer.SDP); e2 == nil && (i%97 == 0 || len(fs) > 0) {
 				run.Sample(map[string]any{"case": i, "round": round, "offer": c07Describe(g), "answer": c07DescribeParsed(ansParsed),
-					"engine": c.EngineClass, "locals": c.Locals, "findings": len(fs)})
+					"engine": c.EngineClass, "locals": c.Locals, "local_datachannel": c.LocalDC, "findings": len(fs)})
 			}
 			seen := map[string]bool{}
 			for _, f := range fs {
@@ -604,7 +788,7 @@ func TestVerifC07(t *testing.T) {
 				seen[f.Sig] = true
 				run.Violation(f.Sig, f.What, i, map[string]any{
 					"round": round, "offer_sdp": offerText, "answer_sdp": answer.SDP, "engine_class": c.EngineClass, "engine": c.Engine,
-					"locals": c.Locals, "multi_codec_disabled": c.DisableMulti, "all_findings": fs,
+					"locals": c.Locals, "multi_codec_disabled": c.DisableMulti, "local_datachannel": c.LocalDC, "all_findings": fs,
 				})
 			}
 			if len(fs) > 0 || round == c.Rounds {
